@@ -24,7 +24,10 @@ Covered range (read off the documented semantics, nothing more):
   Number: [lo, hi) plus hi iff include_max, lo/hi = value_range or min/max(data); outside -> 0.
   Points: every observation.
 
-Case ids are `<slicer>/<clause>/<configuration class>`; they do not contain data or seeds.
+Case ids are `<slicer>/<clause>/<class>` with class = ro0|ro1 (right_open), im0|im1 (include_max),
+sorted|unsorted (PointsPer input order); they contain neither data nor widths nor seeds. Every id that fails on the
+seeded long vectors also fails in the exhaustive, seed-independent part (same membership function, enumerated over
+all (value, max) pairs resp. (min, value, max) triples), so the set of failing ids does not depend on the seed.
 """
 
 import itertools
@@ -105,12 +108,21 @@ def _make(inputs, min_n_points, min_n_intervals):
 def _cfg(inputs):
     s = inputs["slicer"]
     if s == "width":
-        return f"w{inputs['width']}/ro{int(bool(inputs.get('right_open', True)))}"
+        return f"ro{int(bool(inputs.get('right_open', True)))}"
     if s == "number":
-        return f"n{inputs['n_intervals']}/im{int(bool(inputs.get('include_max', True)))}"
+        return f"im{int(bool(inputs.get('include_max', True)))}"
     d = _data_of(inputs)
     is_sorted = bool(np.all(np.diff(d) >= 0))
     return "sorted" if is_sorted else "unsorted"
+
+
+def _describe(inputs):
+    s = inputs["slicer"]
+    if s == "width":
+        return f"width={inputs['width']} right_open={inputs.get('right_open', True)} value_range={inputs.get('value_range')}"
+    if s == "number":
+        return f"n_intervals={inputs['n_intervals']} include_max={inputs.get('include_max', True)} value_range={inputs.get('value_range')}"
+    return f"n_points={inputs['n_points']} last_full={inputs.get('last_full', True)}"
 
 
 def _tol(*vals):
@@ -172,7 +184,7 @@ def evaluate(inputs):
     if len(bad):
         j = bad[0]
         det = (
-            f"value {data[j]!r} (position {j}) is in {int(cnt[j])} intervals, expected "
+            f"{_describe(inputs)}: value {float(data[j])!r} (position {j}) is in {int(cnt[j])} intervals, expected "
             f"{'exactly 1' if must1[j] else ('0' if must0[j] else '<= 1')}; "
             f"{len(bad)} of {n} observations affected; data[:8]={data[:8].tolist()}"
         )
